@@ -113,6 +113,21 @@ theorem C12_multidomain_new_iff (ds : List Bytes) :
   · intro h
     exact ⟨ds, (multiNew_ok ds ds).mpr ⟨rfl, h⟩⟩
 
+/-- in particular a configuration that lists a domain twice, or a domain together with one of its
+    sub-domains (`x.d` with `d`), in either order, is refused -/
+theorem C12_multidomain_refuses_subdomains (ds : List Bytes) (d1 d2 : Bytes)
+    (hsub : [d1, d2].Sublist ds)
+    (hov : d1 = d2 ∨ (46 :: d2) <:+ d1 ∨ (46 :: d1) <:+ d2) : ∀ v, multiNew ds ≠ .ok v := by
+  intro v hv
+  obtain ⟨_, _, _, hp⟩ := (multiNew_ok ds v).mp hv
+  have h2 := hp.sublist hsub
+  rw [List.pairwise_cons] at h2
+  apply h2.1 d2 (by simp)
+  rcases hov with rfl | h | h
+  · exact Or.inl (List.suffix_refl _)
+  · exact Or.inr ((List.suffix_cons 46 d2).trans h)
+  · exact Or.inl ((List.suffix_cons 46 d1).trans h)
+
 /-- … and what it stores is the list it was given -/
 theorem C12_multidomain_new_keeps (ds v : List Bytes) (h : multiNew ds = .ok v) : v = ds :=
   ((multiNew_ok ds v).mp h).1
